@@ -42,7 +42,9 @@ META = dict(
               "(1, 3, 10, 30, 100, 3000, 10500, 29400, 1e6, 123456789, 999999999999, 1e15, 5e15+1) so that real strings "
               "reach the wire and are compared exactly; decode: binance millisecond and bitstamp microsecond timestamp kernels over "
               "2010..2100, over the reals with symbolic integer timestamps AND for binary64 by a per-binade integer "
-              "encoding of the two roundings (fpkernel)",
+              "encoding of the two roundings (fpkernel), under a solver-chosen local time zone; payload wrappers (binance "
+              "order / trades / balance, bitstamp order / balance) with symbolic numeric cells; binance "
+              "Account.get_order_info on all three accounts through the client stack for every documented order status",
         thorough="adds coefficients up to 1e28 with exponents -30 .. +12 on the main entry points, 4 trades in the "
                  "decode scenario"),
     stubs=["aiohttp.ClientSession -> recording stub passed through the clients' own session= parameter",
@@ -57,7 +59,7 @@ META = dict(
              "JSON parsing (C accelerator)", "wrapper classes other than binance Trade / OrderInfo / Balance and bitstamp "
              "OrderStatus / OrderInfo / Balance (the remaining ones are single Decimal(str) / timestamp accessors)"],
     required_covers=["a decimal parameter was transmitted", "an unset option was omitted", "timestamp kernel decided",
-                     "the local time zone was not UTC"],
+                     "the local time zone was not UTC", "a closed order with trades was queried"],
 )
 
 EXPONENTS = list(range(-14, 5))
@@ -289,9 +291,10 @@ class _TZRestore:
         time.tzset()
 
 
-def _local_zone(ctx):
+def _local_zone(ctx, zones=None):
     """The process's local time zone is part of the environment: a solver choice (both modes set the real TZ)."""
-    tz = LOCAL_ZONES[ctx.choice("local_time_zone", len(LOCAL_ZONES))]
+    zones = zones or LOCAL_ZONES
+    tz = zones[ctx.choice("local_time_zone", len(zones))]
     ctx.patches.append((_TZRestore(), "tz", os.environ.get("TZ")))
     os.environ["TZ"] = tz
     time.tzset()
@@ -368,8 +371,6 @@ def timestamps_reals(ctx, which="binance_ms"):
         else:
             want = EPOCH1970 + datetime.timedelta(microseconds=t)
     ctx.prove(got == want, "C17 %s timestamps decode to exactly that UTC instant (over the reals)" % which)
-    for lab in META["required_covers"]:
-        ctx.cover(lab)
 
 
 def _off():
@@ -433,8 +434,6 @@ def timestamps_binary64(ctx, which="binance_ms"):
               info=res["counterexamples"][:2])
     ctx.stats["queries"] += res["cases"] * 2
     ctx.stats["solver_s"] += res["solver_s"]
-    for lab in META["required_covers"]:
-        ctx.cover(lab)
 
 
 # ------------------------------------------------------------------------------------------ payload decoding
@@ -496,8 +495,70 @@ def decode_binance_order(ctx, ntrades=3):
     locked, ld = _cell(ctx, "balance_locked")
     bal = bn_common.Balance({"asset": "BTC", "free": free, "locked": locked})
     ctx.prove([bal.available == fd, bal.locked == ld, bal.total == fd + ld], "C17 binance balances decode exactly")
-    for lab in META["required_covers"]:
-        ctx.cover(lab)
+
+
+class _RoutingSession(StubSession):
+    """answers by URL: .../myTrades -> the order's trades, anything else -> the order"""
+    def __init__(self, order, trades):
+        super().__init__(order)
+        self.order, self.trades = order, trades
+
+    def _call(self, method, url, **kw):
+        r = super()._call(method, url, **kw)
+        r._payload = self.trades if "myTrades" in str(url) else self.order
+        return r
+
+
+def binance_get_order_info(ctx, account="spot_account"):
+    """Account.get_order_info through the real client stack: whatever documented status the order is in, the amounts and
+    the fees it reports are exactly what the exchange returned (order JSON + its trades)."""
+    from basana.external.binance import common as bn_common
+    ctx.patch(bn_common, "Decimal", DecimalFactory)
+    ctx.patch(bn_helpers, "Decimal", DecimalFactory)
+    # statuses under which an order can have traded; NEW / REJECTED orders have no trades
+    status = ctx.pick("order_status", ["PARTIALLY_FILLED", "FILLED", "CANCELED", "EXPIRED", "PENDING_CANCEL", "NEW",
+                                       "REJECTED"])
+    traded = status not in ("NEW", "REJECTED")
+    order = {"orderId": 7, "clientOrderId": "c", "status": status, "side": "BUY", "type": "LIMIT",
+             "timeInForce": "GTC", "time": 1577836800000, "updateTime": 1577836800000, "symbol": "BTCUSDT",
+             "isIsolated": account == "isolated_margin_account", "isWorking": True}
+    cells = {}
+    for key, name in (("origQty", "amount"), ("executedQty", "amount_filled"),
+                      ("cummulativeQuoteQty", "quote_amount_filled"), ("price", "limit_price")):
+        if traded or key in ("origQty", "price"):
+            order[key], cells[name] = _cell(ctx, "order_" + key)
+        else:
+            order[key], cells[name] = "0.00000000", Decimal(0)
+    order["stopPrice"] = "0.00000000"
+    trades, expect_fees = [], {}
+    if traded:
+        for i, asset in enumerate(["BNB", "BTC"]):
+            c, cd = _cell(ctx, "trade%d_commission" % i)
+            trades.append({"id": i, "orderId": 7, "time": 1577836800000, "isBuyer": True, "isMaker": True,
+                           "isBestMatch": True, "price": "100.00", "qty": "1.00000000", "quoteQty": "100.00",
+                           "commission": c, "commissionAsset": asset, "symbol": "BTCUSDT"})
+            expect_fees[asset] = cd
+    sess = _RoutingSession(order, trades)
+    e = bn_exchange.Exchange(None, api_key="k", api_secret="s", session=sess)
+    acc = getattr(e, account)
+    pair = Pair("BTC", "USDT")
+    if account == "isolated_margin_account":
+        info = run(acc.get_order_info(pair, order_id="7"))
+    else:
+        info = run(acc.get_order_info(pair, order_id="7"))
+    ctx.prove([info.amount == cells["amount"], info.amount_filled == cells["amount_filled"],
+               info.quote_amount_filled == cells["quote_amount_filled"]],
+              "C17 binance get_order_info reports exactly the amounts the exchange returned", info=status)
+    fees = dict(info.fees)
+    for asset, want in expect_fees.items():
+        ctx.prove(fees.get(asset, Decimal(0)) == want,
+                  "C17 binance get_order_info reports the fees of the order's trades whatever its status",
+                  info=(status, asset))
+    ctx.prove(set(fees) <= set(expect_fees), "C17 binance order fees mention only assets that were charged")
+    ctx.prove(info.is_open is (status in ("NEW", "PARTIALLY_FILLED", "PENDING_CANCEL")),
+              "C17 binance order status %s decodes to the documented open/closed flag" % status)
+    if traded and not info.is_open:
+        ctx.cover("a closed order with trades was queried")
 
 
 def decode_bitstamp_order(ctx, ntx=2):
@@ -530,8 +591,6 @@ def decode_bitstamp_order(ctx, ntx=2):
         i2 = bt_exchange.OrderInfo(pair, bt_exchange.OrderStatus({"id": 5, "status": st_name, "amount_remaining": "0",
                                                                   "transactions": []}))
         ctx.prove(i2.is_open is want, "C17 bitstamp order status %s decodes to the documented open/closed flag" % st_name)
-    for lab in META["required_covers"]:
-        ctx.cover(lab)
 
 
 def status_tables(ctx):
@@ -542,8 +601,6 @@ def status_tables(ctx):
                                                                "open/closed flag" % st)
     for st, want in (("EXECUTING", True), ("ALL_DONE", False), ("REJECT", False)):
         ctx.prove(bn_helpers.oco_order_status_is_open(st) is want, "C17 binance OCO status %s decodes correctly" % st)
-    for lab in META["required_covers"]:
-        ctx.cover(lab)
 
 
 def jobs(tier):
@@ -580,6 +637,9 @@ def jobs(tier):
         js.append(Job("timestamps binary64: " + which, "timestamps_binary64", dict(which=which), validate_every=0,
                       sample_every=1))
     js.append(Job("status tables", "status_tables", validate_every=0, sample_every=1))
+    for account in ("spot_account", "cross_margin_account", "isolated_margin_account"):
+        js.append(Job("binance %s.get_order_info, every status" % account, "binance_get_order_info",
+                      dict(account=account), validate_every=5, sample_every=10))
     js.append(Job("decode binance order / trades / balance", "decode_binance_order", dict(ntrades=4 if tier != "quick"
                                                                                        else 3),
                   validate_every=5, sample_every=10))
